@@ -10,6 +10,7 @@ import (
 	"sort"
 	"strconv"
 	"strings"
+	"sync"
 
 	"github.com/google/pprof/internal/measurement"
 	"github.com/google/pprof/profile"
@@ -810,6 +811,53 @@ func runScaleProfiles(c *harness.Ctx) harness.Result {
 	return res
 }
 
+// part parallel: labels are a function of (value, unit, target) also when several goroutines format
+// at once (web handlers do): the labels computed by 8 goroutines equal the ones computed one at a time.
+func runParallel(c *harness.Ctx) harness.Result {
+	r := c.Rng
+	type q struct {
+		v        int64
+		from, to string
+	}
+	var qs []q
+	var want []string
+	for i := 0; i < 400; i++ {
+		fs := fromSpecs[r.Intn(len(fromSpecs))]
+		fam := families[fs.fam]
+		to := []string{"auto", "minimum", fam.units[r.Intn(len(fam.units))].aliases[0]}[r.Intn(3)]
+		x := q{randVal(r), fs.spelling, to}
+		qs = append(qs, x)
+		want = append(want, measurement.ScaledLabel(x.v, x.from, x.to))
+	}
+	res := harness.Result{NonTrivial: true, Sig: fmt.Sprint("parallel", c.Index), Sample: "400 (value, unit, target) triples formatted by 8 goroutines at once"}
+	var wg sync.WaitGroup
+	bad := make([]string, 8)
+	for g := 0; g < 8; g++ {
+		wg.Add(1)
+		go func(g int) {
+			defer wg.Done()
+			for rep := 0; rep < 20 && bad[g] == ""; rep++ {
+				for k := range qs {
+					i := (k*7 + g*53 + rep) % len(qs)
+					if got := measurement.ScaledLabel(qs[i].v, qs[i].from, qs[i].to); got != want[i] {
+						bad[g] = fmt.Sprintf("ScaledLabel(%d, %q, %q) = %q while other goroutines format labels; alone it is %q", qs[i].v, qs[i].from, qs[i].to, got, want[i])
+						break
+					}
+				}
+			}
+		}(g)
+	}
+	wg.Wait()
+	c.Stat("parallel_label_calls", int64(8*20*len(qs)))
+	for _, b := range bad {
+		if b != "" {
+			res.Verdict, res.Detail = harness.Violated, b
+			return res
+		}
+	}
+	return res
+}
+
 // part nodelets: the numeric tag "bytes" shown as nodelets of a graph node. The tag carries its
 // own unit (any spelling of a memory unit, or none = bytes); each nodelet label read back with its
 // unit is within display rounding of value x unit.
@@ -907,6 +955,7 @@ func init() {
 			{Name: "percentage", Quick: 500, Thor: 50000, Run: runPercentage},
 			{Name: "scaleprofiles", Quick: 2000, Thor: 200000, Run: runScaleProfiles},
 			{Name: "nodelets", Quick: 600, Thor: 30000, Run: runNodelets},
+			{Name: "parallel", Quick: 40, Thor: 2000, Run: runParallel},
 		},
 		Extra: func(tier string, st map[string]int64) map[string]any {
 			return map[string]any{"exhaustive_part": "lattice", "lattice_sources": len(fromSpecs)}
